@@ -142,6 +142,10 @@ pub(crate) fn is_plain_safe(s: &str) -> bool {
     if bytes[0].is_ascii_whitespace() || s.ends_with(' ') {
         return false;
     }
+    // At the start of the document a leading U+FEFF would be taken for a byte order mark.
+    if s.starts_with('\u{FEFF}') {
+        return false;
+    }
 
     // YAML indicators are only special in certain forms.
     // For example, "-a" and "?query" are valid plain scalars, while "-" / "?"
@@ -181,6 +185,10 @@ pub(crate) fn is_plain_value_safe(s: &str, yaml_12: bool, in_flow: bool) -> bool
     // Leading white space is not part of a plain scalar, and neither is a trailing space:
     // the reader would drop it.
     if bytes[0].is_ascii_whitespace() || s.ends_with(' ') {
+        return false;
+    }
+    // At the start of the document a leading U+FEFF would be taken for a byte order mark.
+    if s.starts_with('\u{FEFF}') {
         return false;
     }
 
